@@ -56,7 +56,10 @@ def weight_fn(ck, prog):
                 # lemma chaining: the duration factor F(d) (last multiplier of each call) is itself monotone; then the weight is
                 muls = p.extra.get('muls', [])
                 F1, F2 = muls[len(muls) // 2 - 1], muls[-1]
-                v = ck.oblige('C13.w.mono_duration.factor', p, z3.And(z3.Int('d1') <= z3.Int('d2'), F1 > F2), 'the duration multiplier is non-decreasing in the duration')
+                D1, D2 = z3.Int('d1'), z3.Int('d2')
+                v0 = ck.oblige('C13.w.mono_duration.square', p, z3.And(D1 <= D2, D1 * D1 > D2 * D2), 'squaring is monotone on the allowed durations (lemma for the multiplier)')
+                sq = [z3.Implies(D1 <= D2, D1 * D1 <= D2 * D2)] if v0 == 'unsat' else []
+                v = ck.oblige('C13.w.mono_duration.factor', p, z3.And(D1 <= D2, F1 > F2), 'the duration multiplier is non-decreasing in the duration', lemmas=sq, abstract=True)
                 lem = [z3.Implies(z3.Int('d1') <= z3.Int('d2'), F1 <= F2)] if v == 'unsat' else []
                 ck.oblige('C13.w.mono_duration', p, z3.And(z3.Int('d1') <= z3.Int('d2'), w1 > w2), 'weight non-decreasing in unbonding duration (same amount)', lemmas=lem)
 
